@@ -25,6 +25,10 @@ class OnionModels(CommonModels):
             d = VOpaque('Deferred', ex.fresh_int(path, 'newd'))
             self.glog_add(path, 'allocated', d)
             return [(path, d)]
+        if obj is defer.succeed:
+            d = VOpaque('Deferred', ex.fresh_int(path, 'succd'))
+            self.glog_add(path, 'succeeded', (d, args[0] if args else NONE))
+            return [(path, d)]
         if obj is float:
             return [(path, VFloat(z3.ToReal(args[0].t) if isinstance(args[0], VInt) else args[0].t))]
         return CommonModels.callable_(self, ex, path, obj, args, kw)
